@@ -55,7 +55,7 @@ def acols_src(n, levels, size):
 
 def build(tier, seed):
     quick = tier == "quick"
-    T = 120 if quick else 900
+    T = 240 if quick else 900
     obs = []
     obs.append(Ob(oid="O0.model_validation", kind="py", target="vf.minipl_validate:validate", kwargs={"tier": tier, "seed": seed}, timeout=T,
                   funcs=["rtflite.services.grouping_service:GroupingService._suppress_single_column",
@@ -143,12 +143,12 @@ from rtflite.encoding.unified_encoder import UnifiedRTFEncoder
     hdrs = [{"group_values": {"s": "A"}}, {"group_values": {"s": "B" if sub1 else "A"}}, {"group_values": {"s": "C" if sub2 else "A"}}]
     pages = [NS(data=NS(height=h, width=2), subline_header=hd, page_number=i + 1) for i, (h, hd) in enumerate(zip(H, hdrs))]
     full = Rec()
-    saved = ue.grouping_service
-    ue.grouping_service = GS()
+    saved = swapped((ue.grouping_service, GS()))
+    saved.__enter__()
     try:
         UnifiedRTFEncoder._apply_data_post_processing(UnifiedRTFEncoder.__new__(UnifiedRTFEncoder), pages, full, NS(group_by=["g"]))
     finally:
-        ue.grouping_service = saved
+        saved.__exit__()
     return seen.get("starts") == [h0, h0 + h1] and seen["enhanced"][0] is full and seen["orig"] is full \
         and [p.data.tag for p in pages] == [(0, h0), (h0, h1), (h0 + h1, h2)]
 ''',
